@@ -94,5 +94,5 @@ func H01Prune() {
 			}
 		}
 	}
-	obs("n=%d max=%d left=%d", n, max, len(h))
+	vObservef("n=%d max=%d left=%d", n, max, len(h))
 }
